@@ -39,6 +39,8 @@ def run(ctx):
     carve = sorted(ctx.known)
     conds = hc.conditions("_keep", ctx.tier, carve, replace_modes=(True, False))
     conds += file_conditions(ctx.tier, carve)
+    for name, multi in (("PythonCommentStyle", False), ("CCommentStyle", True), ("HtmlCommentStyle", True), ("LispCommentStyle", False)):
+        conds.append(xh.Cond(f"keep {name} multi={multi}: the existing header carries trailing blanks / tabs", "HDR.py", "_keep", {"style": name, "multi": multi, "replace": True, "nlines": 2, "old_kind": "trailing-ws", "carve": carve}, timeout=400 if ctx.tier == "quick" else 2000, twin="_keep_reach"))
     ctx.functions_encoded = ["reuse.header.find_and_replace_header / add_new_header / _find_first_spdx_comment / _extract_shebang / place_header", "reuse.comment.CommentStyle.comment_at_first_character", "reuse._annotate.add_header_to_file (read newline='', detect_line_endings, normalise, write with newline=line_ending) over an in-memory open", "reuse.extract.detect_line_endings"]
     ctx.bounds = dict(hc.BOUNDS, file_level="line ending in {LF, CRLF, CR} x final newline x BOM x 2-item bodies for 4 styles")
     ctx.stubs = hc.STUBS + ["builtins.open inside reuse._annotate replaced by an in-memory file with Python's documented newline translation"]
